@@ -20,6 +20,11 @@ type UDPPath struct {
 	Up, Down  time.Duration // one-way latencies
 	Blackhole bool          // packets vanish
 	LossPm    int           // per-mille loss, both directions
+	// PktTime: serialisation time per datagram (0 = infinite bandwidth): datagrams of
+	// one direction leave one after the other, so that a transfer takes time in
+	// proportion to its size
+	PktTime   time.Duration
+	busyUntil map[string]time.Time
 	natSrc    *net.UDPAddr  // how the listener sees the dialer on this path
 	target    *UDPSock
 	origin    *UDPSock
@@ -144,6 +149,18 @@ func (s *UDPSock) WriteTo(b []byte, addr net.Addr) (int, error) {
 		return len(b), nil
 	}
 	p.Delivered++
+	if p.PktTime > 0 {
+		if p.busyUntil == nil {
+			p.busyUntil = map[string]time.Time{}
+		}
+		dep := time.Now()
+		if b := p.busyUntil[dir]; b.After(dep) {
+			dep = b
+		}
+		dep = dep.Add(p.PktTime)
+		p.busyUntil[dir] = dep
+		lat += time.Until(dep)
+	}
 	n.mu.Unlock()
 	time.AfterFunc(lat, func() { dst.push(cp, src) })
 	return len(b), nil
